@@ -433,6 +433,16 @@ def child(arg):
     if r["viol"]:
       # one witness per program: minimise the first violated item
       v = r["viol"][0]
+      # Mechanisms recognised by run-time identity facts need no minimised witness: attribute the
+      # original program directly (minimisation costs hundreds of analyses per witness).
+      from vf.oracle import c01_diag
+      precise = (c01_diag.K_SUPER_RECEIVER, c01_diag.K_ALIAS, c01_diag.K_SITE, c01_diag.K_AMBIG_STORE)
+      pre_key, pre_dg = classify(src, v)
+      if pre_key in precise:
+        out["violations"].append({"key": pre_key, "item": v, "diagnosis": pre_dg, "minimised": src,
+                                  "original": src, "program_seed": pseed, "minimiser_runs": 0,
+                                  "all_items_violated": r["viol"][:5]})
+        continue
       if arg.get("minimise", True):
         msrc, mv, tries = minimise(src, v)
       else:
